@@ -3,6 +3,7 @@
 mod c07;
 mod c13;
 mod c13r;
+mod ioerr;
 mod c16;
 mod c17;
 mod c19;
@@ -84,6 +85,25 @@ fn main() {
                 .iter()
                 .filter_map(|l| c13r::parse(l))
                 .map(|s| c13r::to_case(&s))
+                .collect();
+            write_cases(&out.expect("--out"), &cases);
+        }
+        ("ioerr", "gen") => {
+            let mut rng = Rng::new(seed);
+            let mut w = open_out(&out);
+            for _ in 0..count {
+                writeln!(w, "{}", ioerr::show(&ioerr::gen(&mut rng))).unwrap();
+            }
+        }
+        ("ioerr", "sweep") => {
+            let mut w = open_out(&out);
+            ioerr::sweep(|s| writeln!(w, "{}", ioerr::show(&s)).unwrap());
+        }
+        ("ioerr", "run") => {
+            let cases: Vec<Case> = read_lines(&input)
+                .iter()
+                .filter_map(|l| ioerr::parse(l))
+                .map(|s| ioerr::to_case(&s))
                 .collect();
             write_cases(&out.expect("--out"), &cases);
         }
@@ -201,6 +221,9 @@ fn main() {
             srvw::sweep(|s| writeln!(w, "{}", srvw::show(&s)).unwrap());
         }
         ("srvw", "run") => {
+            if arg(&args, "--order").as_deref() == Some("alt") {
+                srvw::ALT_ORDER.store(true, std::sync::atomic::Ordering::Relaxed);
+            }
             let cases: Vec<Case> = read_lines(&input)
                 .iter()
                 .filter_map(|l| srvw::parse(l))
